@@ -276,6 +276,12 @@ func c17Run(r *core.Run) {
 			r.Probe("io_fault_fired")
 		}
 	}
+	// two callers at once (fault-free runs on an instant TSM): each extends its own register with its own event
+	// log or digest; the seeded scheduler moves between them at the TSM operations.  Each register receives
+	// exactly its caller's digest, whatever the interleaving.
+	if !faulty && !slow {
+		c17Concurrent(r, tsm, model)
+	}
 	// after the history every register equals the extend chain of the accepted digests, in call order
 	for _, k := range []int{0, 1, 2, 3} {
 		if m, ok := model[k]; ok && tsm.Reg[k] != m {
@@ -283,6 +289,122 @@ func c17Run(r *core.Run) {
 		}
 	}
 	r.Sample("history of %d extend requests (indices incl. -2^31,-1,4,5,2^31-1; digest lengths 0/1/47/48/49/64; hash SHA-1/256/384/512/0; logs nil/empty/1B/1MiB) against a model TSM with %d pre-existing entries, faulty=%v", n, len(tsm.Entries), faulty)
+}
+
+func c17Concurrent(r *core.Run, tsm *world.TSM, model map[int][48]byte) {
+	t := r.T
+	ia := t.Draw(4)
+	ib := (ia + 1 + t.Draw(3)) % 4
+	mk := func(idx int) c17Req {
+		if t.Bool() {
+			return c17Req{eventLog: true, index: idx, hash: crypto.SHA384, log: t.Bytes(1 + t.Draw(300))}
+		}
+		return c17Req{index: idx, digest: t.Bytes(48)}
+	}
+	reqs := [2]c17Req{mk(ia), mk(ib)}
+	if tsm.BoundUnreadable(ia) || tsm.BoundUnreadable(ib) {
+		return // an entry owns the index but cannot be identified: not servable (see above)
+	}
+	before := map[int][48]byte{}
+	for k, v := range tsm.Reg {
+		before[k] = v
+	}
+	tsm.Ops, tsm.FailAt, tsm.FailKind, tsm.Fired = nil, 0, "", false
+	sched := core.NewSched()
+	changes := map[int]bool{}
+	for i, n := 0, 1+t.Draw(5); i < n; i++ {
+		changes[t.Draw(24)] = true
+	}
+	switches := 0
+	sched.Pick = func(step, cur int, runnable []int, site string) int {
+		if cur >= 0 && !changes[step] {
+			return cur
+		}
+		for _, id := range runnable {
+			if id != cur {
+				return id
+			}
+		}
+		return runnable[0]
+	}
+	sched.OnSwitch = func(step, from, to int, site string) { switches++ }
+	tsm.OnOp = func(kind, path string) { sched.Yield("tsm:" + kind) }
+	var outs [2]core.Outcome
+	for i := range reqs {
+		i, q := i, reqs[i]
+		sched.Go(fmt.Sprintf("caller%d", i), func() {
+			if q.eventLog {
+				outs[i] = core.Call(func() error { return rtmr.ExtendEventLogClient(tsm, q.index, q.hash, q.log) })
+			} else {
+				outs[i] = core.Call(func() error { return rtmr.ExtendDigestClient(tsm, q.index, q.digest) })
+			}
+		})
+	}
+	sched.Run()
+	tsm.OnOp = nil
+	r.Eval()
+	r.Probe("two_callers_interleaved_at_tsm_operations")
+	r.Fault("sched:switch_between_callers_at_tsm_operation", switches > 1)
+	r.Eventf("concurrent %s | %s switches=%d -> %s | %s", reqs[0], reqs[1], switches, errClass(outs[0]), errClass(outs[1]))
+	r.State("concurrent log=%v/%v switches=%d", reqs[0].eventLog, reqs[1].eventLog, minInt(switches, 6))
+	for i, q := range reqs {
+		if outs[i].Panicked {
+			r.Violate("C17:panic", "%s (one of two concurrent callers) panicked: %s", q, outs[i].PanicVal)
+			return
+		}
+		if outs[i].Err != nil {
+			r.Violate("C17:valid-request-failed:two-callers", "%s is valid, no fault was injected and the other caller (%s) works on another register, yet: %v", q, reqs[1-i], outs[i].Err)
+			return
+		}
+	}
+	for _, wr := range tsm.DigestWrites() {
+		if wr.Err {
+			continue
+		}
+		idx := tsm.EntryIndex(wr.Path)
+		var want []byte
+		switch idx {
+		case ia:
+			want = reqs[0].want()
+		case ib:
+			want = reqs[1].want()
+		default:
+			r.Violate("C17:wrong-register:two-callers", "with callers for registers %d and %d, a digest was written to the entry bound to index %d", ia, ib, idx)
+			continue
+		}
+		if !bytes.Equal(wr.Data, want) {
+			other := "neither caller's digest"
+			if bytes.Equal(wr.Data, reqs[0].want()) || bytes.Equal(wr.Data, reqs[1].want()) {
+				other = "the OTHER caller's digest"
+			}
+			r.Violate("C17:wrong-digest-written:two-callers", "register %d received %s (callers: %s | %s, %d switches)", idx, other, reqs[0], reqs[1], switches)
+		}
+	}
+	for k := 0; k < 4; k++ {
+		want := before[k]
+		for i, idx := range []int{ia, ib} {
+			if k == idx {
+				cur := before[k]
+				want = sha512.Sum384(append(append([]byte(nil), cur[:]...), reqs[i].want()...))
+			}
+		}
+		if tsm.Reg[k] != want {
+			r.Violate("C17:register-wrong-after-two-callers", "register %d is not %s after two concurrent callers on registers %d and %d", k, tern(k == ia || k == ib, "extended exactly once by its caller's digest", "unchanged"), ia, ib)
+		}
+		for i, idx := range []int{ia, ib} {
+			if k == idx {
+				cur := c17Model(model, before, k)
+				model[k] = sha512.Sum384(append(append([]byte(nil), cur[:]...), reqs[i].want()...))
+			}
+		}
+	}
+}
+
+func minInt(a, b int) int {
+	if a < b {
+		return a
+	}
+	return b
 }
 
 func c17Model(model, before map[int][48]byte, idx int) [48]byte {
